@@ -31,6 +31,9 @@ CHECKS = {
  'C14': dict(level='proof', ref='§6 C14', technique='Lean 4 invariant proof on an abstract session state machine + bit-exact history-vs-fresh correspondence',
    text='Lean theorems for arbitrary physics functions: cache coherence is an invariant of every operation (frequency change, compute, far, near); every observation of every history equals that of a fresh single-frequency run; repeated / reordered field requests and repeated computes agree; the original setter (cache not reset) is refuted by a kernel-checked 3-operation witness. Tied by attribute write-set discovery on the real object, by bit-for-bit comparison of every observation of random histories (all load kinds) with fresh objects, and by running command lines twice in fresh processes (different PYTHONHASHSEED) with byte-equal stdout and option files.',
    note=TB + 'the session machine abstracts Z/rhs/current/power into one unit and the pulse-container caches into frequency-independent data (confirmed by the write-set diff); process-level nondeterminism is sampled (two runs), not proved.'),
+ 'C18': dict(level='proof', ref='§6 C18', technique='Lean 4 round-trip theorem (prompt-order reader after writer) on a token-level model + line-by-line text correspondence',
+   text='Lean theorem: readAntenna (writeAntenna m ++ rest) = some (m, rest) for every model in normal form — any number of media (linear/circular, radials), wires, sources (pulse, magnitude, phase in degrees) and loads (impedance or S-parameter with any order); emulation of tapered wires/arcs/helices yields one single-segment wire per segment. Tied by comparing Mininec.as_basic_input line by line with the rendered model output for generated command lines (all structure kinds, media forms, load kinds, versions 9/12/13); an independent Python reader checks the semantic content of the real text.',
+   note=TB + 'numbers are opaque in the model (rendered by Python % with the format recorded in the token); the projection Mininec -> BASIC model (what "the same antenna" means) is harness code; the BASIC prompt order is read off the comments in the source.'),
 }
 NOT_YET = {}
 
